@@ -1042,6 +1042,12 @@ func c13Script(r *gen.Rng, o *out.W) {
 			if r.Intn(4) == 0 {
 				w.Drop(cur)
 			}
+			// an inbound QoS 2 handshake of the old connection is still open (PUBREC sent, PUBREL outstanding): it belongs
+			// to the session and is finished by the newcomer
+			midQos2 := r.Intn(3) == 0 && w.alive(cur)
+			if midQos2 {
+				w.Publish(cur, "t", 2, false, false)
+			}
 			stalledOld := 0
 			if r.Intn(4) == 0 && w.alive(cur) {
 				// the old connection cannot finish dying: the takeover runs into the kill timeout
@@ -1069,6 +1075,12 @@ func c13Script(r *gen.Rng, o *out.W) {
 			}
 			if clean {
 				w.Subscribe(cur, packet.Subscription{Topic: "t", QOS: 1}, packet.Subscription{Topic: "w", QOS: 1})
+			} else if midQos2 && w.alive(cur) {
+				// the publisher side of the handshake moved to the new connection with the session
+				pn := w.peers[cur]
+				pn.open2 = append(pn.open2, po.open2...)
+				po.open2 = nil
+				w.Release(cur)
 			}
 		}
 	}
